@@ -94,6 +94,17 @@ CLAIMS = {
   COMMON_NOTE + "That the solver returns the true status on each formulation is C03 (explored); C15's theorems say what the two answers must be relative to each other. "
   "Variable rescaling is proved for positive factors (reflection = negative factor is not in the generator).",
   "DESIGN.md C15", "Lean 4 proof that each reformulation preserves status/value + model/implementation correspondence check"),
+ "C16": ("proof",
+  "Lean theorems over a store-of-objects model (Qsx.Multi: the reference editing semantics of Qsx.Spec per object, copy, free): a copy shows the original's data; no command changes what "
+  "another object shows; the copy keeps showing the data of copy time - and the original its own - under every later command sequence addressed to other objects (induction over the "
+  "sequence). For the reduced-precision copies: within-one-ulp (Qsx.Round.ulpOK, p-bit significand) implies relative error <= 2^(1-p) and maps zero to zero. Tied to /repo: "
+  "interleavings of edits / copies / frees / solves / parameter changes on up to four objects with a dump of every live object after every command, compared with the model driver's "
+  "slots, with the object's own previous dump when another object was addressed (model-free independence), and copy vs original right after QScopy_prob (data, names, integrality marks, "
+  "objective name, integer and rational parameters); problems with integrality marks (obtained through LP files) copied, both sides edited, original freed; QScopy_prob_mpq_dbl / _mpf "
+  "observed through the dbl_/mpf_ query API: identical structure, senses, order and integer parameters, infinities mapped to the target type's infinity, every number and rational "
+  "parameter passed through the Lean conversion check at 53 bits resp. the working precision (64-256).",
+  COMMON_NOTE + "An unnamed objective (NULL) is given the generated default name by QScopy_prob; that is not counted as a difference. Doubles outside 2^±900 are not generated.",
+  "DESIGN.md C16", "Lean 4 proof over a store-of-objects model and a rounding check + model/implementation correspondence check"),
  "C03": ("proof",
   "Partial by nature. Proved in Lean: soundness of the three certificate checkers (optimality, Farkas, unbounded ray), mutual exclusivity of the three "
   "classes and uniqueness of the certified value - so the 'mathematical truth' of an LP is well defined by whichever certificate exists - and the "
